@@ -16,6 +16,9 @@ thread_local! {
     static LONGEST: Cell<bool> = const { Cell::new(true) };
     static GORDER: Cell<bool> = const { Cell::new(true) };
     static PROD_NT: RefCell<Vec<usize>> = const { RefCell::new(Vec::new()) };
+    // callbacks of the parse in progress (cleared when a parse starts: the parser keeps
+    // its builder, and with it anything the builder holds, across parse() calls)
+    static EVENTS: RefCell<Vec<Value>> = const { RefCell::new(Vec::new()) };
 }
 
 #[derive(Copy, Clone, Debug, Default, PartialEq, Eq, PartialOrd, Ord)]
@@ -348,14 +351,16 @@ fn event(k: &str, t: i64, p: i64, n: i64, span: SourceSpan, v: &str, layout: Opt
 /// Observing builder: forwards to the real `TreeBuilder` and logs every call.
 pub struct Obs<'i> {
     inner: TreeBuilder<'i, str, Pk, Tk>,
-    pub events: Vec<Value>,
+}
+
+pub fn clear_events() {
+    EVENTS.with(|e| e.borrow_mut().clear());
 }
 
 impl<'i> Obs<'i> {
     pub fn new() -> Self {
         Obs {
             inner: TreeBuilder::new(),
-            events: vec![],
         }
     }
 }
@@ -363,7 +368,7 @@ impl<'i> Obs<'i> {
 impl<'i> Builder for Obs<'i> {
     type Output = (TreeNode<'i, str, Pk, Tk>, Vec<Value>);
     fn get_result(&mut self) -> Self::Output {
-        (self.inner.get_result(), std::mem::take(&mut self.events))
+        (self.inner.get_result(), EVENTS.with(|e| std::mem::take(&mut *e.borrow_mut())))
     }
 }
 
@@ -385,7 +390,7 @@ impl<'i> LRBuilder<'i, str, LCtx<'i>, St, Pk, Tk> for Obs<'i> {
         ev["cs"] = json!(cs.start.pos);
         ev["ce"] = json!(cs.end.pos);
         ev["cp"] = json!(context.position().pos);
-        self.events.push(ev);
+        EVENTS.with(|e| e.borrow_mut().push(ev));
         <TreeBuilder<'i, str, Pk, Tk> as LRBuilder<'i, str, LCtx<'i>, St, Pk, Tk>>::shift_action(
             &mut self.inner,
             context,
@@ -405,7 +410,7 @@ impl<'i> LRBuilder<'i, str, LCtx<'i>, St, Pk, Tk> for Obs<'i> {
         ev["cs"] = json!(context.span().start.pos);
         ev["ce"] = json!(context.span().end.pos);
         ev["cp"] = json!(context.position().pos);
-        self.events.push(ev);
+        EVENTS.with(|e| e.borrow_mut().push(ev));
         <TreeBuilder<'i, str, Pk, Tk> as LRBuilder<'i, str, LCtx<'i>, St, Pk, Tk>>::reduce_action(
             &mut self.inner,
             context,
@@ -484,6 +489,7 @@ pub fn run_lr_anylexer(
     let lexer: AnyLexer<LCtx<'static>> = AnyLexer::new(recs, def.nterm);
     let parser: LRParser<'static, LCtx<'static>, St, Pk, Tk, Nk, Def, _, Obs<'static>, str> =
         LRParser::new(def, St(0), partial, false, lexer, Obs::new());
+    clear_events();
     match parser.parse(input) {
         Ok((tree, events)) => (ok_json(), events, tree_json(&tree)),
         Err(e) => (error_json(&e), vec![], empty_tree()),
@@ -518,9 +524,44 @@ pub fn run_lr(
         StringLexer::new(skip_ws && !has_layout, recs);
     let parser: LRParser<'static, LCtx<'static>, St, Pk, Tk, Nk, Def, _, Obs<'static>, str> =
         LRParser::new(def, St(0), partial, has_layout, lexer, Obs::new());
+    clear_events();
     match parser.parse(input) {
         Ok((tree, events)) => (ok_json(), events, tree_json(&tree)),
         Err(e) => (error_json(&e), vec![], empty_tree()),
+    }
+}
+
+/// One LR parser instance used for a whole sequence of inputs (a user keeps the parser
+/// around and calls parse() repeatedly, also after a failed parse).
+pub struct LrSession {
+    parser: LRParser<
+        'static,
+        LCtx<'static>,
+        St,
+        Pk,
+        Tk,
+        Nk,
+        Def,
+        StringLexer<LCtx<'static>, St, Tk, Rec, MAXT>,
+        Obs<'static>,
+        str,
+    >,
+}
+
+impl LrSession {
+    pub fn new(def: &'static Def, recs: &'static [Rec; MAXT], partial: bool, skip_ws: bool) -> Self {
+        let has_layout = def.layout_state.is_some();
+        let lexer = StringLexer::new(skip_ws && !has_layout, recs);
+        LrSession {
+            parser: LRParser::new(def, St(0), partial, has_layout, lexer, Obs::new()),
+        }
+    }
+    pub fn parse(&self, input: &'static str) -> (Value, Vec<Value>, Value) {
+        clear_events();
+        match self.parser.parse(input) {
+            Ok((tree, events)) => (ok_json(), events, tree_json(&tree)),
+            Err(e) => (error_json(&e), vec![], empty_tree()),
+        }
     }
 }
 
